@@ -151,6 +151,7 @@ def guarded(check, stats: Stats, known_match=None, muted=()):
         try:
             check(case, stats)
         except Violation as v:
+            run.last = v
             if v.clause in muted:
                 stats.hist["muted:" + v.clause] += 1
                 return
@@ -161,6 +162,7 @@ def guarded(check, stats: Stats, known_match=None, muted=()):
                     return
             raise
 
+    run.last = None
     return run
 
 
@@ -188,6 +190,15 @@ def hyp_search(strategy, check, stats: Stats, n: int, seed: int, known_match=Non
             return
         except Violation as v:
             stats.violations.append({"clause": v.clause, "case": v.case, "detail": v.detail})
+            muted.add(v.clause)
+        except hypothesis.errors.Flaky as e:
+            # the same case failed once and passed (or failed differently) when re-executed: the code under test keeps
+            # state between cases (our checks are pure functions of the case). Report the last violation seen.
+            v = run.last
+            if v is None:
+                raise HarnessError(f"hypothesis: {type(e).__name__}: {e}")
+            stats.violations.append({"clause": v.clause, "case": v.case,
+                                     "detail": "[not reproducible in isolation: state leaks between cases] " + v.detail})
             muted.add(v.clause)
         except hypothesis.errors.HypothesisException as e:  # generator trouble is ours, not the repo's
             raise HarnessError(f"hypothesis: {type(e).__name__}: {e}")
